@@ -32,10 +32,11 @@ const module = "github.com/prometheus/statsd_exporter"
 var tracked = map[string]bool{
 	"pkg/mapper.MetricMapper.Defaults": true, "pkg/mapper.MetricMapper.Mappings": true, "pkg/mapper.MetricMapper.FSM": true,
 	"pkg/mapper.MetricMapper.doFSM": true, "pkg/mapper.MetricMapper.doRegex": true, "pkg/mapper.MetricMapper.cache": true,
-	"pkg/mappercache/lru.lruCache.cache":                       true,
+	"pkg/mappercache/lru.lruCache.cache":                          true,
 	"pkg/mappercache/randomreplacement.metricMapperRRCache.items": true,
-	"pkg/event.EventQueue.q":                                   true,
-	"pkg/registry.Registry.Metrics":                            true, "pkg/registry.Registry.ValueBuf": true,
+	"pkg/event.EventQueue.q":                                      true,
+	"pkg/event.EventQueue.C":                                      true, // the hand-off channel (sends are listed in section_table)
+	"pkg/registry.Registry.Metrics":                               true, "pkg/registry.Registry.ValueBuf": true,
 	"pkg/registry.Registry.NameBuf": true, "pkg/registry.Registry.Hasher": true,
 }
 
@@ -55,6 +56,7 @@ var externEffects = map[string]string{
 type lockHeld struct {
 	name string // "Type.field"
 	mode string // "R" or "W"
+	acq  string // where it was acquired (file:line:col of the Lock/RLock call): identifies the critical section
 }
 
 type access struct {
@@ -63,6 +65,7 @@ type access struct {
 	write bool
 	locks []lockHeld
 	pos   string
+	send  bool // a channel send on the field (section_table only)
 }
 
 type funcInfo struct {
@@ -87,7 +90,19 @@ var (
 	notes []string
 )
 
-func relPkg(p *types.Package) string { return strings.TrimPrefix(strings.TrimPrefix(p.Path(), module), "/") }
+func relPos(p token.Pos) string {
+	pos := fset.Position(p)
+	if wd, err := os.Getwd(); err == nil {
+		if r, err := filepath.Rel(wd, pos.Filename); err == nil {
+			pos.Filename = r
+		}
+	}
+	return fmt.Sprintf("%s:%d:%d", pos.Filename, pos.Line, pos.Column)
+}
+
+func relPkg(p *types.Package) string {
+	return strings.TrimPrefix(strings.TrimPrefix(p.Path(), module), "/")
+}
 
 func typeKey(t types.Type) (string, *types.Named) {
 	for {
@@ -231,9 +246,9 @@ func (w *walker) callEffect(call *ast.CallExpr) {
 		if lname, ok := isMutexField(info, inner); ok {
 			switch sel.Sel.Name {
 			case "Lock":
-				w.held = append(w.held, lockHeld{lname, "W"})
+				w.held = append(w.held, lockHeld{lname, "W", relPos(call.Pos())})
 			case "RLock":
-				w.held = append(w.held, lockHeld{lname, "R"})
+				w.held = append(w.held, lockHeld{lname, "R", relPos(call.Pos())})
 			case "Unlock", "RUnlock":
 				for i := len(w.held) - 1; i >= 0; i-- {
 					if w.held[i].name == lname {
@@ -302,6 +317,17 @@ func (w *walker) node(n ast.Node) {
 	case *ast.IncDecStmt:
 		w.markWrite(v.X)
 		w.node(v.X)
+		return
+	case *ast.SendStmt:
+		// handing a value over on a tracked channel field: a synchronisation operation, not a memory write -
+		// it is listed in section_table only (which critical section the hand-off lies in), never in access_table
+		if sel, ok := v.Chan.(*ast.SelectorExpr); ok {
+			if loc := trackedField(w.fi.info, sel); loc != "" {
+				w.fi.accesses = append(w.fi.accesses, access{fn: w.fi.name, loc: loc, write: true, locks: w.copyHeld(), pos: fset.Position(v.Pos()).String(), send: true})
+			}
+		}
+		w.node(v.Value)
+		w.node(v.Chan)
 		return
 	case *ast.DeferStmt:
 		// a deferred unlock keeps the lock until the function returns: nothing to do;
@@ -512,7 +538,7 @@ func main() {
 	sb.WriteString("From Coq Require Import List String.\nImport ListNotations.\nOpen Scope string_scope.\n\n")
 	sb.WriteString("(* (entry function, location, is write, locks held as (lock, exclusive?)) *)\n")
 	sb.WriteString("Definition access_table : list (string * string * bool * list (string * bool)) := [\n")
-	var rows []string
+	var rows, srows []string
 	names = names[:0]
 	for n := range funcs {
 		names = append(names, n)
@@ -547,13 +573,30 @@ func main() {
 				wr = "true"
 			}
 			row := fmt.Sprintf("  (%s, %s, %s, [%s])", coqStr(n), coqStr(a.loc), wr, strings.Join(ls, "; "))
-			if !seen[row] {
+			if !seen[row] && !a.send {
 				seen[row] = true
 				rows = append(rows, row)
+			}
+			// the same site with the critical sections it lies in: (lock, exclusive?, acquisition site), outermost first
+			var ss []string
+			for _, l := range a.locks {
+				ex := "false"
+				if l.mode == "W" {
+					ex = "true"
+				}
+				ss = append(ss, "("+coqStr(l.name)+", "+ex+", "+coqStr(l.acq)+")")
+			}
+			srow := fmt.Sprintf("  (%s, %s, %s, [%s])", coqStr(n), coqStr(a.loc), wr, strings.Join(ss, "; "))
+			if !seen[srow] {
+				seen[srow] = true
+				srows = append(srows, srow)
 			}
 		}
 	}
 	sb.WriteString(strings.Join(rows, ";\n"))
+	sb.WriteString("\n].\n\n(* the same sites with the critical section (acquisition site) of every lock held *)\n")
+	sb.WriteString("Definition section_table : list (string * string * bool * list (string * bool * string)) := [\n")
+	sb.WriteString(strings.Join(srows, ";\n"))
 	sb.WriteString("\n].\n\n(* go statements found: spawning function -> goroutine body *)\nDefinition go_statements : list (string * string) := [\n")
 	sort.Strings(gos)
 	var grows []string
